@@ -79,24 +79,59 @@ func verifHarnessC11Scaled() {
 			verifReach("multi-chunk")
 		}
 	}
-	// random reads
-	for i := 0; i < n; i++ {
-		got, err := df.ReadRecordValue(poss[i])
-		verifAssert(err == nil, "C11.random-err")
-		verifAssert(len(got) == len(vals[i]), "C11.random-len")
-		verifAssert(verifBytesEq(got, vals[i]), "C11.random-bytes")
+	readAll := func(df *DataFile, id string) {
+		// random reads
+		for i := range poss {
+			got, err := df.ReadRecordValue(poss[i])
+			verifAssert(err == nil, id+".random-err")
+			verifAssert(len(got) == len(vals[i]), id+".random-len")
+			verifAssert(verifBytesEq(got, vals[i]), id+".random-bytes")
+		}
+		// sequential reads
+		r := df.NewReader()
+		for i := range poss {
+			rec, pos, err := r.NextLogRecord()
+			verifAssert(err == nil, id+".seq-err")
+			verifAssert(*pos == *poss[i], id+".seq-pos")
+			verifAssert(len(rec.Key) == len(keys[i]) && len(rec.Value) == len(vals[i]), id+".seq-len")
+			verifAssert(verifAnd(verifBytesEq(rec.Key, keys[i]), verifBytesEq(rec.Value, vals[i])), id+".seq-bytes")
+		}
+		_, _, err := r.NextLogRecord()
+		verifAssert(err == io.EOF, id+".seq-eof")
 	}
-	// sequential reads
-	r := df.NewReader()
-	for i := 0; i < n; i++ {
-		rec, pos, err := r.NextLogRecord()
-		verifAssert(err == nil, "C11.seq-err")
-		verifAssert(*pos == *poss[i], "C11.seq-pos")
-		verifAssert(len(rec.Key) == len(keys[i]) && len(rec.Value) == len(vals[i]), "C11.seq-len")
-		verifAssert(verifAnd(verifBytesEq(rec.Key, keys[i]), verifBytesEq(rec.Value, vals[i])), "C11.seq-bytes")
+	readAll(df, "C11")
+	if verifParam("reopen") == 1 {
+		// the file is closed and opened again (possibly through the other back-end): same size, same records at the
+		// same positions, and a record appended afterwards continues the framing exactly where the writer left off
+		end := df.Size()
+		verifAssert(df.Close() == nil, "C11.close")
+		ioType2 := ioType
+		if verifParam("r_io") != 0 {
+			ioType2 = fio.FileIOType(verifParam("r_io") - 1)
+		}
+		df, err = OpenFile(dir, 0, DataFileSuffix, ioType2)
+		verifAssert(err == nil, "C11.reopen")
+		verifAssert(df.Size() == end, "C11.reopened-size")
+		verifAssert(verifFSLen(GetFileName(dir, 0, DataFileSuffix)) == end || ioType2 == fio.MemoryMap, "C11.reopened-physical-size")
+		readAll(df, "C11.reopened")
+		vl := verifInt("vlen2")
+		verifAssume(vl >= 0)
+		verifAssume(vl <= maxLen)
+		k2, v2 := verifBytes("k2", 1), verifBytes("v2", vl)
+		p, err := df.WriteLogRecord(&LogRecord{Key: k2, Value: v2, Type: LogRecordNormal}, hdr)
+		verifAssert(err == nil, "C11.append-after-reopen")
+		padded := end
+		if end%blockSize+chunkHeaderSize >= blockSize && end%blockSize != 0 {
+			padded = (end/blockSize + 1) * blockSize
+			verifReach("reopened-with-padded-tail")
+		}
+		verifAssert(int64(p.BlockID)*blockSize+int64(p.Offset) == padded, "C11.append-after-reopen-position")
+		verifAssert(padded+int64(p.Size) == df.Size(), "C11.append-after-reopen-size")
+		verifAssert(df.Size() == verifFSLen(GetFileName(dir, 0, DataFileSuffix)) || ioType2 == fio.MemoryMap, "C11.reopened-logical==physical")
+		keys, vals, poss = append(keys, k2), append(vals, v2), append(poss, p)
+		readAll(df, "C11.appended")
+		verifReach("reopened")
 	}
-	_, _, err = r.NextLogRecord()
-	verifAssert(err == io.EOF, "C11.seq-eof")
 	verifReach("done")
 	if verifParam("witness") == 1 {
 		verifAssert(false, "witness")
